@@ -56,6 +56,7 @@ def normalize(scn: dict) -> dict:
     for sim in s["sims"]:
         sim.setdefault("gpath", [])
         sim.setdefault("initev", False)
+        sim.setdefault("initevs", [])  # further initial events: World.set_initial_event(sid, t) for each t, in this order, after the one at 0
         sim.setdefault("nent", 1)
     for c in s["conns"]:
         c.setdefault("sa", "")
@@ -87,7 +88,7 @@ def tla_scn(scn: dict) -> dict:
     s = normalize(scn)
     return {
         "sims": [
-            {"sid": x["sid"], "type": x["type"], "gpath": list(x["gpath"]), "initev": bool(x["initev"])}
+            {"sid": x["sid"], "type": x["type"], "gpath": list(x["gpath"]), "initev": bool(x["initev"]), "initevs": [int(t) for t in x.get("initevs") or []]}
             for x in s["sims"]
         ],
         "conns": [
